@@ -2,6 +2,7 @@ HOOK_COMMITS = ["9fed477", "defb590", "9e93c9f"]
 NOT_APPLICABLE = {}
 
 TECH = "Lean 4 theorems over an executable model + differential correspondence (Rust harness vs native Lean driver) + constant/ordering translator"
+TECH_W = TECH + " + widget-formula translator (tools/rs2lean.py: Rust widget arithmetic regenerated as Lean definitions and proved equal to the model's formulas on every run)"
 BASE_NOTE = ("Trusted: Lean kernel + Mathlib; tools/extract.py; the correspondence is differential testing over generated cases "
              "(distribution printed in the evidence). ")
 
@@ -13,11 +14,11 @@ CLAIMS = {
  "C02": {
   "text": "16 theorems (algebraic core with explicit bad-challenge sets: accumulator telescopes => grand product; identity at one point outside <= max(deg) roots lifts to the polynomial identity; a violated row defeats EVERY candidate quotient outside the bad set; challenge separation alpha / widget level; soundness_algebraic + soundness_witness: quotient identity at one good point => the extracted assignment satisfies the model's sysSat and has no copy violation; the verifier's linearisation identity IS the quotient identity; forged evaluations rejected (honest witness, model functions, and AGM form)). Deterministic core of soundness: the verifier model (transcript from bytes, regrouped MSM == textbook equation, trapdoor pairing) decides every adversarial proof exactly as the real verifier does: forced proofs of violating instances (hook), forged commitments/evaluations, splices, degenerate proofs are all rejected. Forced proofs also cover rows whose identity components cancel pairwise.",
   "note": BASE_NOTE + "Partial by nature: soundness is computational (KZG knowledge soundness, AGM, Fiat-Shamir are assumptions); what is proved is the algebraic core with explicit bad-challenge sets.",
-  "technique": TECH},
+  "technique": TECH_W},
  "C03": {
   "text": "18 theorems about the model verifier: grouped MSM of Proof::verify / verify_legacy equals the textbook equation as a formal linear combination over any module; every linearisation scalar equals the widget identity; transcript operation list is injective in label, sizes, bound commitments, public inputs and proof elements; acceptance depends on nothing else. The model verifier recomputes Merlin/STROBE/Keccak challenges from bytes and must agree with the real verifier on every mutated proof (bit flips, field replacement, cross-circuit, splices).",
   "note": BASE_NOTE + "Pairing decided in the trapdoor view (bilinearity assumed); sponge treated as random oracle; G1/G2 arithmetic of dusk-bls12_381 re-implemented and compared, not proved.",
-  "technique": TECH},
+  "technique": TECH_W},
  "C04": {
   "text": "10 theorems: public-input length mismatch is rejected before anything else; changing any public input, label byte/length, bound key commitment, size or version flag changes the transcript operation list; version matrix of transcript/equation flags. Correspondence: every public-input mutation, near-miss circuit, label variant and version pair must be rejected by the real verifier exactly as by the model verifier, never accepted, never a panic.",
   "note": BASE_NOTE + "Different operation lists give unrelated challenges only under the random-oracle assumption; pairing in the trapdoor view.",
@@ -25,7 +26,7 @@ CLAIMS = {
  "C05": {
   "text": "The model's proveOutcome (every row identity on the padded domain with cyclic next-row wires, copy classes of the compiled layout, size check) is compared with the real Prover::prove + verify on raw rows of every widget family (satisfying / violating exactly one component), mixed selectors, a selected last row of a full domain, re-wired instances (copy constraints), and the specification prover reproduces the real quotient computation (len > 7n rule) byte for byte (C01/C06). 31 theorems: divisibility of the quotient numerator <=> every identity vanishes on the domain (model quotient routine, coset division exact), blinding invisible on the domain, components from the challenge-weighted sum outside an explicit bad set, len > 7n rule; permutation: sigma is a permutation whose cycles are the wire classes, respects-sigma <=> copyViolation = none, grand-product soundness (bad set <= (4n)^2) and completeness, order independence, relabelling invariance. Raw rows also include cancelling component pairs and independently chosen selectors.",
   "note": BASE_NOTE + "Prover success == all identities hold is exact outside explicit bad-challenge sets (random-oracle assumption). The accumulator z is tied to the grand product at field level; the end-to-end statement for `prove` composes these theorems executably (byte-identical prover).",
-  "technique": TECH},
+  "technique": TECH_W},
  "C06": {
   "text": "13 theorems (mask form of every blinded polynomial and opening, 14 draws, dependence on the first 14 only, draw partition, commitments of a returned proof are commitments of blinded polynomials). The specification prover draws exactly 14 scalars in the order a1 a2 b1 b2 c1 c2 d1 d2 z1 z2 z3 t1 t2 t3 and builds every opened polynomial as unmasked + blinder*(X^n-1) (blindPoly) / quotient shares re-randomised; the real prover's 1008 bytes must equal the model's for scripted RNG streams with single draws forced to 0, 1, r-1; fill_bytes call count 14; two independently randomised proofs share no commitment and no wire/permutation evaluation.",
   "note": BASE_NOTE + "Statistical zero-knowledge itself (simulator) is not proved; the property as worded (mask shape, draw discipline) is decided by byte equality with the model whose structure is the mask form.",
